@@ -54,7 +54,7 @@ DoLevi(i, idxs) == /\ Room /\ reg[i].k >= DD - 1 /\ \A a \in 1..Len(idxs) : idxs
 DoNormSq(i) == /\ Room
                /\ Push(NormSq(reg[i]), NormSq(twin[i]), [op |-> "NormSq", i |-> i])
 DoSpatialSum(i) == /\ Room
-                   /\ Push(SpatialSum(reg[i]), SpatialSum(twin[i]), [op |-> "SpatialSum", i |-> i])
+                   /\ Push(SpatialSumField(reg[i]), SpatialSumField(twin[i]), [op |-> "SpatialSum", i |-> i])
 ConvImg(c, A, F) == ConvOne(c, <<A>>, <<F>>)
 DoConv(i) == /\ Room /\ reg[i].k + Filter.k <= KCap /\ reg[i].dims = CCfg.N
              /\ Push(ConvImg(CCfg, reg[i], Filter), ConvImg(CfgG(g, CCfg), twin[i], Act(g, Filter)), [op |-> "Convolve", i |-> i])
